@@ -282,3 +282,51 @@ class EdgePos(Contract):
         pre = [pa] + [x.v >= 0 for x in (b1, e1, b2, e2)] + [z3.Implies(at == sv("C"), z3.Or(whole1, whole2))]
         return [Case("E", [s], post, pre=pre, heap=heap, symbols=dict(b1=b1, e1=e1, b2=b2, e2=e2, at=at), models=common.lastpos_models(ctx),
                      minimize=[b1.v, b2.v, e1.v, e2.v])]
+
+
+# ---------------------------------------------------------------------------------------- C15 / C06: GFA1-style setters of an E line
+def _edge_setter(name, role, field):
+    class ES(Contract):
+        id = "EdgeSetter_" + name
+        fn = "gfapy/line/edge/gfa2/to_gfa1.py::ToGFA1.%s#set" % name
+        props = ("C15", "C06", "C14")
+        doc = ("e.%s = v writes the %s of the oriented reference that e.%s READS (sid1 or sid2 according to _is_sid1_from, i.e. to positions "
+               "and orientations - not always sid1); the other reference and the other component are untouched" % (name, field, name))
+
+        def cases(self, ctx):
+            g = ctx.gfapy
+            s1from = z3.Bool("sid1_is_the_from_segment")
+            e = Obj(g.line.edge.GFA2, "edge")
+            ol = {n: Obj(g.OrientedLine, "sid" + n) for n in "12"}
+            vals = {(n, f): Obj(None, "sid%s.%s" % (n, f)) for n in "12" for f in ("line", "orient")}
+            newv = Obj(None, "value")
+            heap = {e.oid: {"sid1": ol["1"], "sid2": ol["2"]}, newv.oid: {}, **{ol[n].oid: {"line": vals[(n, "line")], "orient": vals[(n, "orient")]} for n in "12"},
+                    **{v.oid: {} for v in vals.values()}}
+            models = {ctx.fn("gfapy/line/edge/gfa2/to_gfa1.py::ToGFA1._is_sid1_from"): const_model(lambda self_: s1from)}
+            inline = {ctx.fn("gfapy/line/edge/gfa2/to_gfa1.py::ToGFA1.oriented_from"), ctx.fn("gfapy/line/edge/gfa2/to_gfa1.py::ToGFA1.oriented_to")}
+            def post(k, v, st):
+                if k != "return":
+                    return z3.BoolVal(False)
+                def cur(n, f):
+                    x = st.attrs(ol[n]).get(f)
+                    return x.oid if isinstance(x, Obj) else None
+                target_is_1 = s1from if role == "from" else z3.Not(s1from)
+                conj = []
+                for n in "12":
+                    is_target = target_is_1 if n == "1" else z3.Not(target_is_1)
+                    for f in ("line", "orient"):
+                        written = cur(n, f) == newv.oid
+                        kept = cur(n, f) == vals[(n, f)].oid
+                        if f == field:
+                            conj.append(z3.If(is_target, z3.BoolVal(written), z3.BoolVal(kept)))
+                        else:
+                            conj.append(z3.BoolVal(kept))
+                return z3.And(*conj)
+            return [Case("set", [e, newv], post, heap=heap, models=models, inline=inline, symbols={"sid1_is_the_from_segment": s1from}, expect_paths=1,
+                         replay=lambda w: {"target": "bounded.replay_helpers:edge_setter_cases"}, confirm=battery_confirm)]
+    ES.__name__ = ES.id
+    return register(ES)
+
+
+for _n, _r, _f in (("from_segment", "from", "line"), ("to_segment", "to", "line"), ("from_orient", "from", "orient"), ("to_orient", "to", "orient")):
+    _edge_setter(_n, _r, _f)
